@@ -8,6 +8,7 @@ from bvsym import core
 from bvsym.chrun import ChObligation
 import simnet
 from simnet import Kernel, Net, accept_for
+from .envpatch import EnvPatch
 from .common import Obligation, cover, quiet_logging
 
 PROPERTY = "C19"
@@ -34,23 +35,52 @@ class FakeEnv:
         return getattr(self._real, k)
 
 
+class _NameSock:
+    """the name `socket` for runs with a SYMBOLIC host name: a symbolic string is a host name, not an IP literal (stated bound)"""
+
+    def __init__(self):
+        self._real = _socket
+
+    def __getattr__(self, k):
+        return getattr(_socket, k)
+
+    def inet_aton(self, s):
+        if isinstance(s, sx.SymStr):
+            raise _socket.error("illegal IP address string passed to inet_aton")
+        return _socket.inet_aton(s)
+
+
 class _Patch:
-    """temporarily replace names in websocket._url"""
+    """temporarily replace, in every repository module, the bindings of os / socket (by identity of the real module) and of
+    private helpers given by name (by identity of the function object websocket._url holds under that name, if it has one)"""
 
     def __init__(self, **kw):
         self.kw = kw
 
     def __enter__(self):
+        import os as real_os
         import websocket._url as U
-        self.U = U
-        self.old = {k: getattr(U, k) for k in self.kw}
+        self.ep = EnvPatch()
         for k, v in self.kw.items():
-            setattr(U, k, v)
+            if k == "os":
+                self.ep.replace(real_os, v)
+                self.ep.replace(real_os.environ, v.environ)
+            elif k == "socket":
+                self.ep.replace(_socket, v)
+                self.ep.replace(_socket.inet_aton, v.inet_aton)
+            elif k == "_is_ip_address":
+                f = getattr(U, k, None)
+                if f is not None:
+                    self.ep.replace(f, v)
+                ns = _NameSock()
+                self.ep.replace(_socket, ns)
+                self.ep.replace(_socket.inet_aton, ns.inet_aton)
+            else:
+                raise AssertionError(k)
         return U
 
     def __exit__(self, *a):
-        for k, v in self.old.items():
-            setattr(self.U, k, v)
+        self.ep.restore()
 
 
 def _exempt_ref(host, entries):
